@@ -144,7 +144,7 @@ def run_case(case):
 
     def verify(rt, key, nodes, truth, what, withheld=False):
         try:
-            v = HexaryTrie.get_from_proof(rt, key, common.vary(nodes))
+            v = HexaryTrie.get_from_proof(rt, key, common.vary(nodes, gen=True))
             out = "v " + hx(v)
         except BadTrieProof:
             v = None
